@@ -151,7 +151,10 @@ func main() {
 		wit := map[string]interface{}{"solid": s.Desc, "delta": fmt.Sprintf("%x", delta)}
 		var ref []vlib.Tri
 		withProcs(1, func() { ref = vlib.CanonTris(vlib.Tris(model3d.MarchingCubes(s, delta))) })
-		for _, p := range procsList {
+		// four of the worker counts per case, always one above 64
+		perm := rng.Perm(len(procsList) - 2)[:3]
+		sel := []int{procsList[perm[0]], procsList[perm[1]], procsList[perm[2]], procsList[len(procsList)-1-rng.Intn(2)]}
+		for _, p := range sel {
 			hs, tr := traced(s, delta, c.SubSeed+int64(p))
 			var got []vlib.Tri
 			withProcs(p, func() { got = vlib.CanonTris(vlib.Tris(model3d.MarchingCubes(hs, delta))) })
@@ -245,18 +248,18 @@ func main() {
 			s = vlib.UnionSolid(a, b)
 		}
 		iters := rng.Intn(4)
-		if c.Index%2 == 1 {
+		if c.Index%3 == 1 {
 			// large coarse/fine ratios on boxes: the coarse mesh chamfers sharp edges by up to a
 			// coarse cell, which the dilated coarse mesh still has to cover (sides >= 3 coarse cells)
-			ratio := []int{8, 12, 16, 24}[rng.Intn(4)]
+			ratio := []int{8, 12, 16, 20}[rng.Intn(4)]
 			big = 0.25 + 0.1*rng.Float64()
 			small = big / float64(ratio)
 			lo := model3d.XYZ(rng.Float64(), rng.Float64(), rng.Float64())
-			s = vlib.BoxSolid(lo, lo.Add(model3d.XYZ(big*(3+rng.Float64()), big*(3+rng.Float64()), big*(3+rng.Float64()))))
+			s = vlib.BoxSolid(lo, lo.Add(model3d.XYZ(big*(3+0.3*rng.Float64()), big*(3+0.3*rng.Float64()), big*(3+0.3*rng.Float64()))))
 			if rng.Intn(2) == 0 {
 				iters = 0
 			}
-			c.Count("mc.c2f.comparisons_with_ratio_8_to_24", 1)
+			c.Count("mc.c2f.comparisons_with_ratio_8_to_20", 1)
 		}
 		p := []int{1, 3, 8, 16, 70, 150}[rng.Intn(6)]
 		wit := map[string]interface{}{"solid": s.Desc, "big": big, "small": small, "iters": iters, "gomaxprocs": p}
@@ -325,6 +328,7 @@ func main() {
 
 	marching2(r)
 	raster(r)
+	rasterCollider(r)
 	marginSections(r)
 
 	r.Require("mc.procs.comparisons", 50)
@@ -334,6 +338,8 @@ func main() {
 	r.Require("dc.comparisons_with_buffer_shifts", 10)
 	r.Require("interleavings.distinct_arrival_signatures", 20)
 	r.Require("raster.comparisons", 20)
+	r.Require("raster.collider.comparisons", 40)
+	r.Require("raster.collider.cases_with_more_than_16_subsamples", 5)
 	r.Require("margin.2d.cases_with_rounding_flips", 20)
 	r.Require("margin.3d.cases_with_rounding_flips", 5)
 	r.Finish()
@@ -494,7 +500,7 @@ func raster(r *vlib.Run) {
 		if rng.Intn(4) == 0 {
 			// more sub-samples than the 16-pixel tile size of the filter
 			rast.Subsamples = 9 + rng.Intn(28)
-			rast.Scale = 10 + 20*rng.Float64()
+			rast.Scale = 6 + 8*rng.Float64()
 		}
 		p := []int{1, 2, 5, 16, 80}[rng.Intn(5)]
 		wit := map[string]interface{}{"solid": s.desc, "scale": rast.Scale, "subsamples": rast.Subsamples, "gomaxprocs": p}
@@ -535,51 +541,6 @@ func raster(r *vlib.Run) {
 				}
 			}
 		}
-		// the library's own filtered rasterisers of a collider against the unfiltered rasterisation
-		// of the same even-odd solid (only when the filter's circle test cannot be at a tie: the
-		// outline is a polygon in general position, ties have measure zero)
-		if c.Index%2 == 0 {
-			poly := model2d.NewMeshPolar(func(t float64) float64 { return 0.5 + 0.3*math.Sin(3*t+float64(c.Index)) }, 40+rng.Intn(60))
-			coll := model2d.MeshToCollider(poly)
-			var a, b *image.Gray
-			withProcs(1, func() { a = rast.RasterizeSolid(model2d.NewColliderSolid(coll)) })
-			withProcs(p, func() { b = rast.RasterizeColliderSolid(coll) })
-			c.Count("raster.comparisons", 1)
-			c.Count("raster.collider_solid_comparisons", 1)
-			if a.Bounds() != b.Bounds() {
-				c.Violation("model2d.Rasterizer.RasterizeColliderSolid/same-image", fmt.Sprintf("image sizes differ: %v vs %v", a.Bounds(), b.Bounds()), wit)
-				return
-			}
-			for i := range a.Pix {
-				if a.Pix[i] != b.Pix[i] {
-					w := a.Bounds().Dx()
-					c.Violation("model2d.Rasterizer.RasterizeColliderSolid/same-image", fmt.Sprintf("pixel (%d,%d): unfiltered %d, RasterizeColliderSolid %d", i%w, i/w, a.Pix[i], b.Pix[i]), wit)
-					return
-				}
-			}
-		}
-		// and the line drawing: RasterizeCollider against the unfiltered rasterisation of the hollow solid
-		if c.Index%4 == 0 {
-			lr := &model2d.Rasterizer{Scale: rast.Scale, Subsamples: rast.Subsamples, Bounds: rast.Bounds, LineWidth: 1 + 3*rng.Float64()}
-			poly := model2d.NewMeshPolar(func(t float64) float64 { return 0.5 + 0.3*math.Sin(2*t+float64(c.Index)) }, 30+rng.Intn(40))
-			coll := model2d.MeshToCollider(poly)
-			var a, b *image.Gray
-			withProcs(1, func() { a = lr.RasterizeSolid(model2d.NewColliderSolidHollow(coll, 0.5*lr.LineWidth/lr.Scale)) })
-			withProcs(p, func() { b = lr.RasterizeCollider(coll) })
-			c.Count("raster.comparisons", 1)
-			c.Count("raster.collider_line_comparisons", 1)
-			if a.Bounds() != b.Bounds() {
-				c.Violation("model2d.Rasterizer.RasterizeCollider/same-image", fmt.Sprintf("image sizes differ: %v vs %v", a.Bounds(), b.Bounds()), wit)
-				return
-			}
-			for i := range a.Pix {
-				if a.Pix[i] != b.Pix[i] {
-					w := a.Bounds().Dx()
-					c.Violation("model2d.Rasterizer.RasterizeCollider/same-image", fmt.Sprintf("pixel (%d,%d): unfiltered %d, RasterizeCollider %d (line width %g, subsamples %d)", i%w, i/w, a.Pix[i], b.Pix[i], lr.LineWidth, lr.Subsamples), wit)
-					return
-				}
-			}
-		}
 		// repeated unfiltered run at another worker count
 		withProcs(p, func() { got = rast.RasterizeSolid(s) })
 		c.Count("raster.comparisons", 1)
@@ -597,5 +558,59 @@ func raster(r *vlib.Run) {
 		if lo && hi {
 			c.Nontrivial("raster" + s.desc + fmt.Sprint(rast.Scale, rast.Subsamples))
 		}
+	})
+}
+
+// rasterCollider: the library's own filtered rasterisers of a collider (filled and line drawing)
+// against the unfiltered rasterisation of the same solid, over the whole range of sub-sample
+// counts (the tile size of the filter is 16/Subsamples pixels), line widths and canvas overrides.
+func rasterCollider(r *vlib.Run) {
+	r.Section("raster.collider", r.N(40, 600), vlib.SectionOpts{Sequential: true}, func(c *vlib.Case) {
+		rng := c.Rng
+		sub := 1 + rng.Intn(8)
+		if c.Index%2 == 1 {
+			sub = 9 + rng.Intn(32)
+		}
+		rast := &model2d.Rasterizer{Scale: 6 + 8*rng.Float64(), Subsamples: sub, LineWidth: 1 + 3*rng.Float64()}
+		if sub > 8 {
+			rast.Scale = 2.5 + 2*rng.Float64()
+		}
+		poly := model2d.NewMeshPolar(func(t float64) float64 { return 1 + 0.5*math.Sin(float64(2+c.Index%3)*t+float64(c.Index)) }, 16+rng.Intn(24))
+		if rng.Intn(3) == 0 {
+			lo, hi := poly.Min(), poly.Max()
+			w := hi.Sub(lo)
+			rast.Bounds = model2d.NewRect(lo.Add(w.Scale(0.4*rng.Float64()-0.1)), hi.Sub(w.Scale(0.4*rng.Float64()-0.1)))
+		}
+		coll := model2d.MeshToCollider(poly)
+		p := []int{1, 2, 5, 16, 80}[rng.Intn(5)]
+		wit := map[string]interface{}{"scale": rast.Scale, "subsamples": sub, "line_width": rast.LineWidth, "gomaxprocs": p, "canvas_override": rast.Bounds != nil, "polar_index": c.Index}
+		cmp := func(key string, a, b *image.Gray) bool {
+			c.Count("raster.collider.comparisons", 1)
+			if a.Bounds() != b.Bounds() {
+				c.Violation(key, fmt.Sprintf("image sizes differ: %v vs %v", a.Bounds(), b.Bounds()), wit)
+				return false
+			}
+			for i := range a.Pix {
+				if a.Pix[i] != b.Pix[i] {
+					w := a.Bounds().Dx()
+					c.Violation(key, fmt.Sprintf("pixel (%d,%d): unfiltered %d, filtered %d", i%w, i/w, a.Pix[i], b.Pix[i]), wit)
+					return false
+				}
+			}
+			return true
+		}
+		var a, b *image.Gray
+		withProcs(1, func() { a = rast.RasterizeSolid(model2d.NewColliderSolid(coll)) })
+		withProcs(p, func() { b = rast.RasterizeColliderSolid(coll) })
+		if !cmp("model2d.Rasterizer.RasterizeColliderSolid/same-image", a, b) {
+			return
+		}
+		withProcs(1, func() { a = rast.RasterizeSolid(model2d.NewColliderSolidHollow(coll, 0.5*rast.LineWidth/rast.Scale)) })
+		withProcs(p, func() { b = rast.RasterizeCollider(coll) })
+		cmp("model2d.Rasterizer.RasterizeCollider/same-image", a, b)
+		if sub > 16 {
+			c.Count("raster.collider.cases_with_more_than_16_subsamples", 1)
+		}
+		c.Nontrivial(fmt.Sprint("rastercollider", c.Index, sub, rast.Scale))
 	})
 }
